@@ -10,6 +10,7 @@ declare -A DIR=( [C02]=persistence/subscription/mem [C06-m1]=. [C06-m2]=pkg/pack
 one() {
   id=$1; d=$V/seeded/$id; prop=${id%%-*}
   tgt=${DIR[$id]:-${DIR[$prop]:-server}}
+  hdr=$(head -1 $d/demo_test.go.txt | sed -n 's#^// *dir: *\([A-Za-z0-9_/.-]*\).*#\1#p'); [ -n "$hdr" ] && tgt=$hdr
   wt=/tmp/sv-$id
   pin=$PIN; [ -f $d/base ] && pin=$(cat $d/base)
   git -C /repo worktree remove --force $wt >/dev/null 2>&1
